@@ -138,13 +138,8 @@ pub fn workload(cfg: &TreeCfg, dir: &Path, snaps: &[u64]) -> Result<Vec<String>,
     workload_ext(cfg, dir, snaps, false)
 }
 
-/// Recovery check of a crash image: open + read everything, then write / flush / compact / read.
-pub fn image_check(cfg: &TreeCfg, dir: &Path) -> String {
-    let ans = match workload(cfg, dir, &[]) {
-        Ok(a) => a,
-        Err(e) => return format!("ERR {e}"),
-    };
-    // C20: after a recovery the directory holds nothing but what the recovered version names
+/// Files in the tree directory that the version recovered by a fresh open does not name.
+pub fn leftover_files(cfg: &TreeCfg, dir: &Path) -> Vec<String> {
     let mut leftover: Vec<String> = vec![];
     if let Ok(mut d) = DriverLite::open(cfg, dir) {
         let t = d.tree.take().unwrap();
@@ -173,6 +168,17 @@ pub fn image_check(cfg: &TreeCfg, dir: &Path) -> String {
             }
         }
     }
+    leftover
+}
+
+/// Recovery check of a crash image: open + read everything, then write / flush / compact / read.
+pub fn image_check(cfg: &TreeCfg, dir: &Path) -> String {
+    let ans = match workload(cfg, dir, &[]) {
+        Ok(a) => a,
+        Err(e) => return format!("ERR {e}"),
+    };
+    // C20: after a recovery the directory holds nothing but what the recovered version names
+    let leftover = leftover_files(cfg, dir);
     // the recovered tree must be usable without colliding with leftovers, and what it then writes
     // must itself be recoverable:
     //  (A) the first version change after the recovery is a merging compaction (its version file is
